@@ -466,4 +466,272 @@ theorem identity_colSum (n j : Nat) (hj : j < n) : (Mat.identity n).colSum j = 1
   simp
 
 
+
+/-! ### scattering a face-to-face matrix into the full face numbering (`update_primary`) -/
+
+/-- indicator -/
+def ind (p : Prop) [Decidable p] : Rat := if p then 1 else 0
+
+@[simp] theorem selMat_r (idx : List Nat) (n : Nat) : (selMat idx n).r = idx.length := rfl
+@[simp] theorem selMat_c (idx : List Nat) (n : Nat) : (selMat idx n).c = n := rfl
+
+theorem selMat_ent (idx : List Nat) (n a g : Nat) (ha : a < idx.length) (hg : g < n) :
+    (selMat idx n).ent a g = ind (idx.getD a n = g) := ent_table _ _ _ a g ha hg
+
+/-- entries of `face_map_old.T * M * face_map_new` -/
+theorem scatter_ent (oi ni : List Nat) (nOld nNew : Nat) (M : Mat) (hMc : M.c = ni.length)
+    (f g : Nat) (hf : f < nOld) (hg : g < nNew) :
+    (((selMat oi nOld).T.mul M).mul (selMat ni nNew)).ent f g =
+      sumTo ni.length (fun b => sumTo oi.length (fun a => ind (oi.getD a nOld = f) * M.ent a b)
+        * ind (ni.getD b nNew = g)) := by
+  rw [ent_mul _ _ f g (by simpa using hf) (by simpa using hg)]
+  simp only [mul_c, hMc]
+  apply sumTo_congr
+  intro b hb
+  rw [selMat_ent ni nNew b g hb hg, ent_mul _ _ f b (by simpa using hf) (by rw [hMc]; exact hb)]
+  congr 1
+  simp only [T_c]
+  apply sumTo_congr
+  intro a ha
+  have ha' : a < oi.length := by simpa using ha
+  rw [ent_T _ f a (by simpa using hf) (by simpa using ha'), selMat_ent oi nOld a f ha' hf]
+
+
+theorem sum_ind_eq (n k : Nat) (hk : k < n) : sumTo n (fun g => ind (k = g)) = 1 := by
+  rw [sumTo_single n k hk _ (fun g _ hne => by unfold ind; exact if_neg (fun h => hne h.symm))]
+  simp [ind]
+
+/-- `Σ_a [idx a = f] · v a = v a₀` when `idx a₀ = f` and `idx` is injective on the range -/
+theorem sum_ind_select (n : Nat) (idx : Nat → Nat) (f a0 : Nat) (v : Nat → Rat) (h0 : a0 < n) (e0 : idx a0 = f)
+    (hinj : ∀ a, a < n → idx a = idx a0 → a = a0) :
+    sumTo n (fun a => ind (idx a = f) * v a) = v a0 := by
+  rw [sumTo_single n a0 h0 _ (fun a ha hne => by
+    have : ¬ idx a = f := fun h => hne (hinj a ha (h.trans e0.symm))
+    simp [ind, this])]
+  simp [ind, e0]
+
+theorem sum_ind_none (n : Nat) (idx : Nat → Nat) (f : Nat) (v : Nat → Rat) (h : ∀ a, a < n → idx a ≠ f) :
+    sumTo n (fun a => ind (idx a = f) * v a) = 0 := by
+  apply sumTo_eq_zero
+  intro a ha
+  simp [ind, h a ha]
+
+theorem scatter_rowSum (oi ni : List Nat) (nOld nNew : Nat) (M : Mat) (hMc : M.c = ni.length)
+    (hni : ∀ b, b < ni.length → ni.getD b nNew < nNew) (f : Nat) (hf : f < nOld) :
+    (((selMat oi nOld).T.mul M).mul (selMat ni nNew)).rowSum f =
+      sumTo oi.length (fun a => ind (oi.getD a nOld = f) * M.rowSum a) := by
+  unfold Mat.rowSum
+  simp only [mul_c, selMat_c]
+  rw [sumTo_congr nNew _ _ (fun g hg => scatter_ent oi ni nOld nNew M hMc f g hf hg), sumTo_comm]
+  rw [sumTo_congr ni.length _ (fun b => sumTo oi.length (fun a => ind (oi.getD a nOld = f) * M.ent a b)) (by
+    intro b hb
+    rw [sumTo_mul_left, sum_ind_eq nNew _ (hni b hb), mul_one])]
+  rw [sumTo_comm, hMc]
+  apply sumTo_congr
+  intro a _
+  rw [sumTo_mul_left]
+
+theorem scatter_colSum (oi ni : List Nat) (nOld nNew : Nat) (M : Mat) (hMc : M.c = ni.length) (hMr : M.r = oi.length)
+    (hoi : ∀ a, a < oi.length → oi.getD a nOld < nOld) (g : Nat) (hg : g < nNew) :
+    (((selMat oi nOld).T.mul M).mul (selMat ni nNew)).colSum g =
+      sumTo ni.length (fun b => ind (ni.getD b nNew = g) * M.colSum b) := by
+  unfold Mat.colSum
+  simp only [mul_r, T_r, selMat_c]
+  rw [sumTo_congr nOld _ _ (fun f hf => scatter_ent oi ni nOld nNew M hMc f g hf hg), sumTo_comm]
+  apply sumTo_congr
+  intro b _
+  rw [sumTo_mul_right, mul_comm]
+  congr 1
+  rw [sumTo_comm, hMr]
+  apply sumTo_congr
+  intro a ha
+  rw [sumTo_mul_right, sum_ind_eq nOld _ (hoi a ha), one_mul]
+
+theorem scatter_ent_zero_left (oi ni : List Nat) (nOld nNew : Nat) (M : Mat) (hMc : M.c = ni.length)
+    (f g : Nat) (h : ∀ a, a < oi.length → oi.getD a nOld ≠ f) :
+    (((selMat oi nOld).T.mul M).mul (selMat ni nNew)).ent f g = 0 := by
+  by_cases hf : f < nOld
+  · by_cases hg : g < nNew
+    · rw [scatter_ent oi ni nOld nNew M hMc f g hf hg]
+      apply sumTo_eq_zero
+      intro b _
+      rw [sum_ind_none _ _ _ _ h, zero_mul]
+    · exact ent_table_col_oob _ _ _ f g (Nat.le_of_not_lt hg)
+  · exact ent_table_row_oob _ _ _ f g (Nat.le_of_not_lt hf)
+
+theorem scatter_ent_zero_right (oi ni : List Nat) (nOld nNew : Nat) (M : Mat) (hMc : M.c = ni.length)
+    (f g : Nat) (h : ∀ b, b < ni.length → ni.getD b nNew ≠ g) :
+    (((selMat oi nOld).T.mul M).mul (selMat ni nNew)).ent f g = 0 := by
+  by_cases hf : f < nOld
+  · by_cases hg : g < nNew
+    · rw [scatter_ent oi ni nOld nNew M hMc f g hf hg]
+      apply sumTo_eq_zero
+      intro b hb
+      have : ind (ni.getD b nNew = g) = 0 := by unfold ind; exact if_neg (h b hb)
+      rw [this, mul_zero]
+    · exact ent_table_col_oob _ _ _ f g (Nat.le_of_not_lt hg)
+  · exact ent_table_row_oob _ _ _ f g (Nat.le_of_not_lt hf)
+
+@[simp] theorem add_r (A B : Mat) : (A.add B).r = A.r := rfl
+@[simp] theorem add_c (A B : Mat) : (A.add B).c = A.c := rfl
+
+theorem ent_add (A B : Mat) (i j : Nat) (hi : i < A.r) (hj : j < A.c) :
+    (A.add B).ent i j = A.ent i j + B.ent i j := ent_table _ _ _ i j hi hj
+
+theorem rowSum_add (A B : Mat) (i : Nat) (hi : i < A.r) (hc : B.c = A.c) :
+    (A.add B).rowSum i = A.rowSum i + B.rowSum i := by
+  unfold Mat.rowSum
+  rw [add_c, hc, ← sumTo_add]
+  exact sumTo_congr _ _ _ (fun j hj => ent_add A B i j hi hj)
+
+theorem colSum_add (A B : Mat) (j : Nat) (hj : j < A.c) (hr : B.r = A.r) :
+    (A.add B).colSum j = A.colSum j + B.colSum j := by
+  unfold Mat.colSum
+  rw [add_r, hr, ← sumTo_add]
+  exact sumTo_congr _ _ _ (fun i hi => ent_add A B i j hi hj)
+
+theorem ent_add_zero (A B : Mat) (i j : Nat) (hA : A.ent i j = 0) (hB : B.ent i j = 0) :
+    (A.add B).ent i j = 0 := by
+  unfold Mat.add
+  rw [ent_table']
+  split
+  · rw [hA, hB]; ring
+  · rfl
+
+
+
+theorem chain_length : ∀ (xs : List Rat) (a : Rat), (chainCells (a :: xs)).length = xs.length
+  | [], _ => rfl
+  | b :: t, a => by simp only [chainCells, List.length_cons, chain_length t b]
+
+theorem tess_length {cells : List Cell} {a : Rat} {xs : List Rat} (h : Tessellates cells a xs) :
+    cells.length = xs.length := by rw [h.1.length_eq, chain_length]
+
+theorem lt_lastOr (a y : Rat) (t : List Rat) (h : StrictSorted (a :: y :: t)) : a < lastOr a (y :: t) := by
+  have h1 : a < y := h.1
+  have h2 := le_lastOr t y h.2
+  simp only [lastOr]; linarith
+
+/-- two tessellations of the same segment are empty together -/
+theorem tess_empty_iff {o n : List Cell} {a : Rat} {xs ys : List Rat} (ho : Tessellates o a xs)
+    (hn : Tessellates n a ys) (hend : lastOr a xs = lastOr a ys) : o = [] ↔ n = [] := by
+  have lo := tess_length ho
+  have ln := tess_length hn
+  constructor
+  · intro h
+    cases ys with
+    | nil => exact List.eq_nil_of_length_eq_zero (by rw [ln]; rfl)
+    | cons y t =>
+      have hx : xs = [] := List.eq_nil_of_length_eq_zero (by rw [← lo, h]; rfl)
+      subst hx
+      have := lt_lastOr a y t hn.2
+      rw [← hend] at this
+      simp [lastOr] at this
+  · intro h
+    cases xs with
+    | nil => exact List.eq_nil_of_length_eq_zero (by rw [lo]; rfl)
+    | cons x t =>
+      have hy : ys = [] := List.eq_nil_of_length_eq_zero (by rw [← ln, h]; rfl)
+      subst hy
+      have := lt_lastOr a x t ho.2
+      rw [hend] at this
+      simp [lastOr] at this
+
+theorem getD_ne_of_not_mem (l : List Nat) (d f : Nat) (h : f ∉ l) : ∀ a, a < l.length → l.getD a d ≠ f := by
+  intro a ha e
+  apply h
+  rw [← e, List.getD_eq_getElem?_getD, List.getElem?_eq_getElem ha]
+  exact List.getElem_mem ha
+
+theorem exists_getD_of_mem (l : List Nat) (d f : Nat) (h : f ∈ l) : ∃ a, a < l.length ∧ l.getD a d = f := by
+  obtain ⟨a, ha, e⟩ := List.getElem_of_mem h
+  exact ⟨a, ha, by rw [List.getD_eq_getElem?_getD, List.getElem?_eq_getElem ha]; exact e⟩
+
+theorem getD_inj_of_nodup (l : List Nat) (d : Nat) (h : l.Nodup) (a a0 : Nat) (ha : a < l.length) (h0 : a0 < l.length)
+    (e : l.getD a d = l.getD a0 d) : a = a0 := (List.getD_inj ha h0 h).mp e
+
+theorem getD_lt_of_forall (l : List Nat) (d n : Nat) (h : ∀ x ∈ l, x < n) (a : Nat) (ha : a < l.length) :
+    l.getD a d < n := by
+  rw [List.getD_eq_getElem?_getD, List.getElem?_eq_getElem ha]
+  exact h _ (List.getElem_mem ha)
+
+
+theorem sideOrZero_r (nOld nNew : Nat) (o n : List FaceRec) (s : Scaling) : (sideOrZero nOld nNew o n s).r = nOld := by
+  unfold sideOrZero; split <;> rfl
+theorem sideOrZero_c (nOld nNew : Nat) (o n : List FaceRec) (s : Scaling) : (sideOrZero nOld nNew o n s).c = nNew := by
+  unfold sideOrZero; split <;> rfl
+
+/-- entries of one side's matrix vanish outside (its old faces) × (its new faces) -/
+theorem sideOrZero_ent_zero (nOld nNew : Nat) (o n : List FaceRec) (s : Scaling) (f g : Nat)
+    (h : f ∉ o.map (·.idx) ∨ g ∉ n.map (·.idx)) : (sideOrZero nOld nNew o n s).ent f g = 0 := by
+  unfold sideOrZero
+  split
+  · rw [ent_table']; split <;> rfl
+  · unfold sideFaceMatch
+    have hMc : (match1d (o.map (·.cell)) (n.map (·.cell)) s).c = (n.map (·.idx)).length := by
+      rw [match1d_c]; simp
+    rcases h with h | h
+    · exact scatter_ent_zero_left _ _ _ _ _ hMc f g (getD_ne_of_not_mem _ _ f h)
+    · exact scatter_ent_zero_right _ _ _ _ _ hMc f g (getD_ne_of_not_mem _ _ g h)
+
+
+theorem rowSum_zero_of_ent (A : Mat) (f : Nat) (h : ∀ g, A.ent f g = 0) : A.rowSum f = 0 :=
+  sumTo_eq_zero _ _ (fun g _ => h g)
+
+theorem colSum_zero_of_ent (A : Mat) (g : Nat) (h : ∀ f, A.ent f g = 0) : A.colSum g = 0 :=
+  sumTo_eq_zero _ _ (fun f _ => h f)
+
+theorem mem_side_idx (l : List FaceRec) (b : Bool) (f : Nat) :
+    f ∈ (l.filter (·.pos == b)).map (·.idx) ↔ ∃ r, r ∈ l ∧ r.pos = b ∧ r.idx = f := by
+  simp only [List.mem_map, List.mem_filter, beq_iff_eq]
+  constructor
+  · rintro ⟨r, ⟨hr, hp⟩, e⟩; exact ⟨r, hr, hp, e⟩
+  · rintro ⟨r, hr, hp, e⟩; exact ⟨r, ⟨hr, hp⟩, e⟩
+
+theorem inj_of_nodup_idx : ∀ (l : List FaceRec), (l.map (·.idx)).Nodup →
+    ∀ r, r ∈ l → ∀ r', r' ∈ l → r.idx = r'.idx → r = r'
+  | [], _, r, hr, _, _, _ => by cases hr
+  | x :: l, h, r, hr, r', hr', e => by
+    simp only [List.map_cons, List.nodup_cons] at h
+    rcases List.mem_cons.mp hr with h1 | h1
+    · rcases List.mem_cons.mp hr' with h2 | h2
+      · rw [h1, h2]
+      · exact absurd (show x.idx ∈ l.map (·.idx) from List.mem_map.mpr ⟨r', h2, by rw [← e, h1]⟩) h.1
+    · rcases List.mem_cons.mp hr' with h2 | h2
+      · exact absurd (show x.idx ∈ l.map (·.idx) from List.mem_map.mpr ⟨r, h1, by rw [e, h2]⟩) h.1
+      · exact inj_of_nodup_idx l h.2 r h1 r' h2 e
+
+theorem not_mem_other_side (l : List FaceRec) (hN : (l.map (·.idx)).Nodup) (b : Bool) (f : Nat)
+    (h : f ∈ (l.filter (·.pos == b)).map (·.idx)) : f ∉ (l.filter (·.pos == !b)).map (·.idx) := by
+  intro h'
+  obtain ⟨r, hr, hp, e⟩ := (mem_side_idx l b f).mp h
+  obtain ⟨r', hr', hp', e'⟩ := (mem_side_idx l (!b) f).mp h'
+  have := inj_of_nodup_idx l hN r hr r' hr' (e.trans e'.symm)
+  subst this
+  rw [hp] at hp'
+  cases b <;> simp at hp'
+
+
+theorem nodup_side_idx (l : List FaceRec) (hN : (l.map (·.idx)).Nodup) (b : Bool) :
+    ((l.filter (·.pos == b)).map (·.idx)).Nodup :=
+  List.Nodup.sublist (List.Sublist.map _ List.filter_sublist) hN
+
+
+theorem mortarBlocks_map (s : Scaling) : ∀ (l : List (Side × List Cell × Option (List Cell))),
+    mortarBlocks s (l.map (·.2.1)) (l.map (·.2.2)) = l.map fun x => blockOf s x.2.1 x.2.2
+  | [] => rfl
+  | (_, _, some _) :: l => by simp only [List.map_cons, mortarBlocks, blockOf, mortarBlocks_map s l]
+  | (_, _, none) :: l => by simp only [List.map_cons, mortarBlocks, blockOf, mortarBlocks_map s l]
+
+theorem blockOf_c (s : Scaling) (g : List Cell) (o : Option (List Cell)) : (blockOf s g o).c = g.length := by
+  cases o with
+  | none => rfl
+  | some n => exact match1d_c n g s
+
+theorem faceMatch_c (P : Mat) (nNew : Nat) (old new : List FaceRec) (s : Scaling) :
+    (faceMatch P nNew old new s).c = nNew := by
+  unfold faceMatch
+  simp only [add_c, sideOrZero_c]
+
+
 end PorepyVerif.C26
